@@ -346,13 +346,13 @@ func checkReaders(w *W, rep lib.Report, vec, lang, text string, rng *rand.Rand) 
 	want, _, werr, _ := rep.ExportWithString(text)
 	c := tmplCase(rep, vec, lang, text)
 	readers := map[string]io.Reader{
-		"strings.Reader":  strings.NewReader(text),
-		"bytes.Buffer":    bytes.NewBufferString(text),
-		"OneByteReader":   iotest.OneByteReader(strings.NewReader(text)),
-		"HalfReader":      iotest.HalfReader(strings.NewReader(text)),
-		"DataErrReader":   iotest.DataErrReader(strings.NewReader(text)),
-		"chunk+stutter":   &chunkReader{data: []byte(text), rng: rng, stutter: 5},
-		"chunk":           &chunkReader{data: []byte(text), rng: rng},
+		"strings.Reader": strings.NewReader(text),
+		"bytes.Buffer":   bytes.NewBufferString(text),
+		"OneByteReader":  iotest.OneByteReader(strings.NewReader(text)),
+		"HalfReader":     iotest.HalfReader(strings.NewReader(text)),
+		"DataErrReader":  iotest.DataErrReader(strings.NewReader(text)),
+		"chunk+stutter":  &chunkReader{data: []byte(text), rng: rng, stutter: 5},
+		"chunk":          &chunkReader{data: []byte(text), rng: rng},
 	}
 	for name, rd := range readers {
 		w.Eval(1)
@@ -475,6 +475,26 @@ func runC19(r *Run) int {
 				for li, lang := range langs {
 					checkExport(w, st, reps[l][li], vec, lang, text)
 				}
+				// read the returned reader in small pieces / one byte at a time
+				if rng.IntN(4) == 0 {
+					if want, werr := oracleTemplate(reps[l][1].Ptr(), text); werr == nil {
+						if rd, err, pan := reps[l][1].ExportRaw(text); err == nil && pan == nil && rd != nil {
+							w.Eval(1)
+							var got []byte
+							buf := make([]byte, 1+rng.IntN(7))
+							for {
+								n, e := rd.Read(buf)
+								got = append(got, buf[:n]...)
+								if e != nil {
+									break
+								}
+							}
+							if string(got) != want {
+								w.Violate(Violation{Monitor: "C19", Check: "reading the returned reader in small pieces yields the same text", Case: tmplCase(reps[l][1], vec, "ja", text), Observed: clip(string(got), 300), Expected: clip(want, 300)})
+							}
+						}
+					}
+				}
 				// hold the reader of a successful export undrained across the following exports
 				if want, werr := oracleTemplate(reps[l][0].Ptr(), text); werr == nil && held == nil && rng.IntN(3) == 0 {
 					if rd, err, pan := reps[l][0].ExportRaw(text); err == nil && pan == nil && rd != nil {
@@ -517,6 +537,25 @@ func runC19(r *Run) int {
 			for l := 0; l < 3; l++ {
 				checkNilCases(w, reps[l][0], vec, "en")
 			}
+			// deep nesting and many definitions
+			var deep strings.Builder
+			depth := 20 + rng.IntN(180)
+			for d := 0; d < depth; d++ {
+				fmt.Fprintf(&deep, "{{if .Vector}}{{with .BaseScore}}%d:", d)
+			}
+			deep.WriteString("{{.}}")
+			for d := 0; d < depth; d++ {
+				deep.WriteString("{{end}}{{end}}")
+			}
+			checkExport(w, st, reps[rng.IntN(3)][rng.IntN(2)], vec, "en/ja", deep.String())
+			var many strings.Builder
+			for d := 0; d < 150; d++ {
+				fmt.Fprintf(&many, "{{define \"d%d\"}}<%d {{.}}>{{end}}", d, d)
+			}
+			for d := 0; d < 150; d += 7 {
+				fmt.Fprintf(&many, "{{template \"d%d\" .SeverityValue}}", d)
+			}
+			checkExport(w, st, reps[rng.IntN(3)][rng.IntN(2)], vec, "en/ja", many.String())
 			// large templates (> 64 KiB) and a 1 MB literal
 			big := strings.Repeat("{{.Vector}} 攻撃 ", 6000)
 			checkExport(w, st, reps[2][0], vec, "en", big)
